@@ -26,8 +26,11 @@ from __future__ import annotations
 import copy
 import io
 import logging
+import os
 import queue
 import sys
+import threading
+import time as _time
 import types
 
 from common import Infra, corpus
@@ -47,6 +50,7 @@ if "flexstack.linklayer.cv2xlinklayer" not in sys.modules:
     _stub.CV2XLinkLayer = type("CV2XLinkLayer", (), {})
     sys.modules["flexstack.linklayer.cv2xlinklayer"] = _stub
 from flexstack.linklayer import cv2x_link_layer as cv2x_mod  # noqa: E402
+import flexstack.geonet.router as router_mod  # noqa: E402
 
 MODULES = ["Props.C04"]
 DRIVERS = ["Recv"]
@@ -76,6 +80,97 @@ PEER_MAC = bytes([0x02, 0, 0, 0, 0, 0x01])
 BCAST = b"\xff" * 6
 ETHERTYPE = b"\x89\x47"
 T0 = 1_700_000_000_000
+
+
+# ------------------------------------------------------------------------------------------------ timers, watchdog
+
+
+class VTimer:
+    """stand-in for threading.Timer inside flexstack.geonet.router.  A started timer is kept; the harness fires the CBF
+    timers of a station at the END of the frame that armed them (so the copy a forwarder puts on the air is attributed
+    to that frame and the run is deterministic); Location Service retransmission timers never fire."""
+    pending = []
+
+    def __init__(self, interval, function, args=None, kwargs=None):
+        self.interval, self.function = interval, function
+        self.args, self.kwargs = list(args or []), dict(kwargs or {})
+        self.daemon = True
+
+    def start(self):
+        VTimer.pending.append(self)
+
+    def cancel(self):
+        try:
+            VTimer.pending.remove(self)
+        except ValueError:
+            pass
+
+    def is_alive(self):
+        return self in VTimer.pending
+
+
+def fire_cbf(router):
+    """expire the contention timers armed by `router` (what `_cbf_timeout` sends goes to its link layer)"""
+    for t in list(VTimer.pending):
+        fn = t.function
+        if getattr(fn, "__self__", None) is router and getattr(fn, "__name__", "") == "_cbf_timeout" and t in VTimer.pending:
+            VTimer.pending.remove(t)
+            try:
+                fn(*t.args, **t.kwargs)
+            except Exception:  # noqa: BLE001 - a timer thread that dies is not the receive path
+                pass
+
+
+class vtimers:
+    def __enter__(self):
+        self.old = router_mod.Timer
+        router_mod.Timer = VTimer
+        VTimer.pending.clear()
+        return self
+
+    def __exit__(self, *a):
+        router_mod.Timer = self.old
+        VTimer.pending.clear()
+
+
+WATCHDOG_S = 6.0       # no progress for this long AND the thread parked at one source line -> the receive path HANGS
+HANGS = []             # one entry per hang observed in this process (hung daemon threads stay parked; keep them few)
+
+
+def guarded(fn, progress, limit=None):
+    """run `fn()` on a worker thread (a receive loop is a thread of its own in the real stack as well) under a watchdog:
+    -> (finished, error, where).  `finished` False = the thread made no progress (`progress()` constant) for `limit`
+    seconds while parked at one and the same source line: the loop is blocked (dead-lock), `where` names the line.
+    A hang is JUDGED (violation), never an infrastructure error."""
+    limit = WATCHDOG_S if limit is None else limit
+    box = {}
+
+    def work():
+        try:
+            fn()
+        except BaseException as e:  # noqa: BLE001 - the loop died
+            box["err"] = f"{type(e).__name__}: {e}"
+    th = threading.Thread(target=work, daemon=True, name="c04-receive")
+    th.start()
+
+    def where():
+        fr = sys._current_frames().get(th.ident)
+        if fr is None:
+            return None
+        return f"{os.path.basename(fr.f_code.co_filename)}:{fr.f_lineno} in {fr.f_code.co_name}"
+    last, t_last, spots = progress(), _time.monotonic(), []
+    while True:
+        th.join(0.02 if _time.monotonic() - t_last < 0.5 else 0.5)
+        if not th.is_alive():
+            return True, box.get("err"), None
+        p = progress()
+        if p != last:
+            last, t_last, spots = p, _time.monotonic(), []
+            continue
+        spots.append(where())
+        if _time.monotonic() - t_last > limit and len(spots) >= 4 and len(set(spots[-4:])) == 1:
+            HANGS.append(spots[-1])
+            return False, None, spots[-1]
 
 
 # ------------------------------------------------------------------------------------------------ snapshots
@@ -472,6 +567,7 @@ def secured_mutants(ctx, w, valid):
         field("psid", psid)
         field("no-gentime", no_gentime)
         field("protocol-version-2", lambda sd: None, version=2)
+    out += hop_limit_mutants(valid[:3] if not ctx.thorough else valid)
     return out
 
 
@@ -551,6 +647,7 @@ class Probe:
             self.stn.gn.indication_callback = on_ind
             self.state = lambda: (loct_snapshot(self.stn.gn), ())
         self.spy = Spy(self.stn.gn)
+        self.last_sent = []
 
     def n_inds(self):
         return len(self.stn.inds) if self.ver else len(self.inds)
@@ -567,7 +664,10 @@ class Probe:
                 self.stn.gn.process_basic_header(frame)
         except Exception as e:  # noqa: BLE001
             exc = e
+        with rs.quiet():
+            fire_cbf(self.stn.gn)          # the copy a contention-based forwarder buffered for this frame
         sent = self.stn.ll.take()
+        self.last_sent = [bytes(x).hex() for x in sent]      # GN-PDUs put on the air because of this frame
         delivered = [(p, bytes(i.data).hex()) for p, i in self.stn.port_hits[hits:]]
         indicated = self.n_inds() > inds
         changed = self.state() != before
@@ -693,6 +793,7 @@ def check_pairs(ctx, clock, base, elog, extra=()):
             alone = Probe(clock, with_ldm=False)
             r_alone = alone.feed(v)
             s_alone = alone.state()
+            sent_alone = list(alone.last_sent)
             both = Probe(clock, with_ldm=False)
             r_bad = both.feed(b)
             r_v = both.feed(v)
@@ -702,7 +803,7 @@ def check_pairs(ctx, clock, base, elog, extra=()):
                 elog.see(r_bad[1], b.hex())
             out_b, exc_b, disc_b, changed_b, deliv_b = r_bad
             same = (r_v[0], type(r_v[1]).__name__, r_v[4]) == (r_alone[0], type(r_alone[1]).__name__, r_alone[4]) \
-                and both.state() == s_alone
+                and both.state() == s_alone and both.last_sent == sent_alone
             case = {"kind": "pair", "bad": b.hex(), "good": v.hex()}
             ctx.cover("pair_" + tag)
             if disc_b:
@@ -754,66 +855,128 @@ def make_station(clock, facilities, with_ldm, world=None):
         return st_mod.Station(0x63, clock, facilities=facilities, with_ldm=with_ldm)
 
 
-def run_raw_loop(clock, frames, facilities, with_ldm, world=None, stdout=None, unguarded=False):
-    """returns (alive, per-frame deliveries, error, station) for ethernet frames through the real RawLinkLayer.receive.
-    `unguarded`: the callback is Router.process_basic_header, which RAISES for bad frames (the loop's own guard is
-    exercised: a link layer must survive whatever its receive_callback raises)"""
-    stn = make_station(clock, facilities, with_ldm, world)
+class LoopRun(tuple):
+    """(alive, per-frame deliveries, error, station) + .sent (per-frame GN-PDUs put on the air, hex) + .hung"""
+
+    def __new__(cls, alive, per, err, stn, sent=None, hung=False):
+        self = super().__new__(cls, (alive, per, err, stn))
+        self.sent, self.hung = sent or [], hung
+        return self
+
+
+def _slices(marks, n, hits, sent):
+    """per received frame: what reached the facility ports / the link layer between its recv and the next recv"""
+    per, per_sent = [], []
+    for i in range(n):
+        lo = marks[i] if i < len(marks) else (len(hits), len(sent))
+        hi = marks[i + 1] if i + 1 < len(marks) else (len(hits), len(sent))
+        per.append([(p, bytes(ind.data).hex()) for p, ind in hits[lo[0]:hi[0]]])
+        per_sent.append([bytes(x).hex() for x in sent[lo[1]:hi[1]]])
+    return per, per_sent
+
+
+def run_raw_loop(clock, frames, facilities, with_ldm, world=None, stdout=None, unguarded=False, stn=None):
+    """returns LoopRun(alive, per-frame deliveries, error, station) for ethernet frames through the real
+    RawLinkLayer.receive, run on a thread of its own under the watchdog (a loop that HANGS is reported like a loop that
+    died).  `unguarded`: the callback is Router.process_basic_header, which RAISES for bad frames (the loop's own guard
+    is exercised: a link layer must survive whatever its receive_callback raises).  `stn`: a prepared station (history)"""
+    stn = stn if stn is not None else make_station(clock, facilities, with_ldm, world)
+    stn.ll.take()
     marks = []
     ll = RawLinkLayer.__new__(RawLinkLayer)
     ll.receive_callback = stn.gn.process_basic_header if unguarded else stn.gn.gn_data_indicate
     ll.mac_address = OWN_MAC
-    ll.sock = FakeSock(frames, lambda i: marks.append(len(stn.port_hits)))
-    err = None
-    try:
-        if stdout is None:
-            with rs.quiet():
-                ll.receive()
-        else:
-            with stdout:
-                ll.receive()
-    except BaseException as e:  # noqa: BLE001  the loop died
-        err = f"{type(e).__name__}: {e}"
-    per = []
-    for i in range(len(frames)):
-        lo = marks[i] if i < len(marks) else len(stn.port_hits)
-        hi = marks[i + 1] if i + 1 < len(marks) else len(stn.port_hits)
-        per.append([(p, bytes(ind.data).hex()) for p, ind in stn.port_hits[lo:hi]])
-    alive = err is None and ll.sock.i == len(frames)
-    return alive, per, err, stn
+
+    def on_recv(i):
+        fire_cbf(stn.gn)
+        marks.append((len(stn.port_hits), len(stn.ll.sent)))
+    ll.sock = FakeSock(frames, on_recv)
+    with (rs.quiet() if stdout is None else stdout):
+        finished, err, where = guarded(ll.receive, lambda: len(marks))
+    if not finished:
+        err = f"HANGS: the receive thread is blocked at {where} while handling frame {len(marks) - 1} of {len(frames)}"
+    per, per_sent = _slices(marks, len(frames), stn.port_hits, stn.ll.sent)
+    alive = finished and err is None and ll.sock.i == len(frames)
+    return LoopRun(alive, per, err, stn, per_sent, not finished)
 
 
-def run_cv2x_loop(clock, payloads, stdout=None, unguarded=False):
+class _Flag:
+    """multiprocessing.Event stand-in (receive_process runs in-process here)"""
+
+    def __init__(self):
+        self.v = False
+
+    def is_set(self):
+        return self.v
+
+    def set(self):
+        self.v = True
+
+
+class _Modem:
+    """scripted C-V2X modem: receive() hands out the radio frames, then raises the stop flag"""
+
+    def __init__(self, radio, flag):
+        self.radio, self.i, self.flag = list(radio), 0, flag
+
+    def receive(self):
+        if self.i >= len(self.radio):
+            self.flag.set()
+            return b""
+        f = self.radio[self.i]
+        self.i += 1
+        return f
+
+
+def cv2x_expected(radio):
+    """GN packets the callback thread must be handed, by the module's documented framing: one family-id octet in front
+    of the GN packet; the modem returns an empty buffer when it has nothing"""
+    return [r[1:] for r in radio if len(r) > 0]
+
+
+def run_cv2x_loop(clock, payloads=None, stdout=None, unguarded=False, radio=None):
+    """the real PythonCV2XLinkLayer.receive_process (scripted modem) feeding the real callback_handler_loop through a
+    queue, then the stop signal as PythonCV2XLinkLayer.stop() gives it.  `radio`: frames as the modem delivers them
+    (family id + GN packet); `payloads`: GN packets (a family id is put in front).  Per-frame results are indexed by
+    cv2x_expected(radio)"""
+    if radio is None:
+        radio = [b"\x03" + bytes(p) for p in payloads]
+    expected = cv2x_expected(radio)
     with rs.quiet():
         stn = st_mod.Station(0x63, clock, with_ldm=False)
+    stn.ll.take()
     ll = cv2x_mod.PythonCV2XLinkLayer.__new__(cv2x_mod.PythonCV2XLinkLayer)
-    ll.link_layer = None
+    flag = _Flag()
+    ll.link_layer = _Modem(radio, flag)
     marks = []
 
     def cb(data):
-        marks.append(len(stn.port_hits))
+        fire_cbf(stn.gn)
+        marks.append((len(stn.port_hits), len(stn.ll.sent)))
         return (stn.gn.process_basic_header if unguarded else stn.gn.gn_data_indicate)(data)
     ll.receive_callback = cb
     q = queue.Queue()
-    for p in payloads:
-        q.put(p)
-    q.put(None)
     err = None
     try:
-        if stdout is None:
-            with rs.quiet():
-                ll.callback_handler_loop(q)
-        else:
-            with stdout:
-                ll.callback_handler_loop(q)
-    except BaseException as e:  # noqa: BLE001
-        err = f"{type(e).__name__}: {e}"
-    per = []
-    for i in range(len(payloads)):
-        lo = marks[i] if i < len(marks) else len(stn.port_hits)
-        hi = marks[i + 1] if i + 1 < len(marks) else len(stn.port_hits)
-        per.append([(p, bytes(ind.data).hex()) for p, ind in stn.port_hits[lo:hi]])
-    return err is None and q.empty() and len(marks) == len(payloads), per, err, stn
+        ll.receive_process(q, flag)
+    except Exception as e:  # noqa: BLE001
+        err = f"receive_process: {type(e).__name__}: {e}"
+    queued = q.qsize()
+    q.put(None)
+    with (rs.quiet() if stdout is None else stdout):
+        finished, err2, where = guarded(lambda: ll.callback_handler_loop(q), lambda: len(marks))
+        if finished:
+            fire_cbf(stn.gn)             # contention timer armed by the last frame
+    ll.link_layer = None
+    err = err or err2
+    if not finished:
+        err = f"HANGS: the callback thread is blocked at {where} while handling frame {len(marks) - 1}"
+    per, per_sent = _slices(marks, len(expected), stn.port_hits, stn.ll.sent)
+    alive = finished and err is None and q.empty() and len(marks) == len(expected) and queued == len(expected)
+    if finished and err is None and not alive:
+        err = (f"{len(expected)} GN packets received, {queued} queued, {len(marks)} handed to the router, "
+               f"{q.qsize()} left in the queue when the callback thread ended")
+    return LoopRun(alive, per, err, stn, per_sent, not finished)
 
 
 def gn_source(frame):
@@ -867,11 +1030,13 @@ def check_loops(ctx, clock, bad_pool, elog):
         ctx.rng.shuffle(valid)
         k = ctx.rng.randrange(1, ctx.scale(12, 40))
         bads = [ctx.rng.choice(usable) for _ in range(k)]
-        alive0, per0, err0, stn0 = run_raw_loop(clock, [eth(v) for v in valid], facilities, with_ldm)
+        run0 = run_raw_loop(clock, [eth(v) for v in valid], facilities, with_ldm)
+        alive0, per0, err0, stn0 = run0
         seq = [("v", v) for v in valid]
         for b, _, _ in bads:
             seq.insert(ctx.rng.randrange(len(seq) + 1), ("b", b))
-        alive1, per1, err1, stn1 = run_raw_loop(clock, [eth(x) for _, x in seq], facilities, with_ldm)
+        run1 = run_raw_loop(clock, [eth(x) for _, x in seq], facilities, with_ldm)
+        alive1, per1, err1, stn1 = run1
         ctx.evals(len(seq))
         ctx.cover("loop_streams")
         ctx.cover("loop_bad_frames", k)
@@ -881,6 +1046,8 @@ def check_loops(ctx, clock, bad_pool, elog):
             ctx.violation(f"receive loop died on valid traffic: {err0}", dict(case, stream=[["v", v.hex()] for v in valid]))
         if not alive1:
             ctx.violation(f"receive loop terminated by a received frame: {err1}", case)
+            if run1.hung:
+                return
             continue
         got = [d for (t, _), d in zip(seq, per1) if t == "v"]
         if got != per0:
@@ -894,29 +1061,61 @@ def check_loops(ctx, clock, bad_pool, elog):
             ctx.violation("location table holds entries that no injected frame creates on its own", case)
         if all(kk == "none" for _, kk, _ in bads) and l1 != l0:
             ctx.violation("location table differs although every injected frame is without effect on its own", case)
+        if all(kk == "none" for _, kk, _ in bads) and [x for (t, _), x in zip(seq, run1.sent) if t == "v"] != run0.sent:
+            ctx.violation("GN-PDUs forwarded for the valid frames differ from the run without the bad frames although "
+                          "every injected frame is without effect on its own", case)
+        if run1.hung:
+            return
         ctx.nontrivial(("loop", s, k, tuple(facilities), with_ldm))
         if s == 0:
             ctx.sample("loop", {"facilities": list(facilities), "ldm": with_ldm, "n_valid": len(valid), "n_bad": k,
                                 "deliveries_per_valid_frame": [len(d) for d in per0]})
-    # C-V2X callback loop: per-frame comparison
+    # C-V2X: receive_process + callback loop, per-frame comparison.  Frames as the modem delivers them: family id + GN
+    # packet; every stream also carries radio frames at the length boundaries (nothing at all, the family id alone = an
+    # EMPTY GN packet, one octet behind it)
     for s in range(ctx.scale(6, 60)):
         valid = [f for _, f in valid0]
-        seq = [("v", x) for x in valid]
+        seq = [("v", b"\x03" + x) for x in valid]
         for _ in range(ctx.rng.randrange(1, 10)):
-            seq.insert(ctx.rng.randrange(len(seq) + 1), ("b", ctx.rng.choice(usable)[0] or b"\x00"))
-        alive0, d0, e0, stn0 = run_cv2x_loop(clock, valid)
-        alive1, d1, e1, stn1 = run_cv2x_loop(clock, [x for _, x in seq])
+            seq.insert(ctx.rng.randrange(len(seq) + 1), ("b", b"\x03" + ctx.rng.choice(usable)[0]))
+        for j in (s, s + 2):
+            seq.insert(ctx.rng.randrange(len(seq) + 1), ("b", CV2X_BOUNDARY[j % len(CV2X_BOUNDARY)]))
         ctx.evals(len(seq))
         ctx.cover("cv2x_streams")
-        case = {"kind": "cv2x", "stream": [[t, x.hex()] for t, x in seq]}
-        if not alive1:
-            ctx.violation(f"C-V2X callback loop terminated by a received frame: {e1}", case)
-            continue
-        got = [d for (t, _), d in zip(seq, d1) if t == "v"]
-        if got != d0:
-            ctx.violation("C-V2X: per-frame deliveries of the valid frames differ from the control run", case)
-        if restrict(loct_snapshot(stn1.gn), valid_mid) != restrict(loct_snapshot(stn0.gn), valid_mid):
-            ctx.violation("C-V2X: location-table entries of the valid sources differ from the control run", case)
+        for _, x in seq:
+            if len(x) <= 2:
+                ctx.cover(f"cv2x_radio_frame_len_{len(x)}")
+        if cv2x_stream_case(ctx, clock, seq):
+            return
+
+
+CV2X_BOUNDARY = [b"\x03", b"", b"\x03\x11", b"\x00", b"\x03\x00", b"\xff"]
+
+
+def cv2x_stream_case(ctx, clock, seq, report=True):
+    """seq = [(tag, radio frame)].  -> True iff the property is violated (reported through ctx when `report`)"""
+    run0 = run_cv2x_loop(clock, radio=[x for t, x in seq if t == "v"])
+    run1 = run_cv2x_loop(clock, radio=[x for _, x in seq])
+    case = {"kind": "cv2x", "radio": True, "stream": [[t, x.hex()] for t, x in seq]}
+    what = None
+    if not run1[0]:
+        what = f"C-V2X receive path stopped by a received frame: {run1[2]}"
+    else:
+        tags = [t for t, x in seq if len(x) > 0]
+        got = [d for t, d in zip(tags, run1[1]) if t == "v"]
+        got_sent = [d for t, d in zip(tags, run1.sent) if t == "v"]
+        valid_mid = {gn_source(x[1:]).hex()[-12:] for t, x in seq if t == "v" and gn_source(x[1:])}
+        if got != run0[1]:
+            what = "C-V2X: per-frame deliveries of the valid frames differ from the control run"
+        elif restrict(loct_snapshot(run1[3].gn), valid_mid) != restrict(loct_snapshot(run0[3].gn), valid_mid):
+            what = "C-V2X: location-table entries of the valid sources differ from the control run"
+        elif got_sent != run0.sent and loct_snapshot(run1[3].gn) == loct_snapshot(run0[3].gn):
+            what = "C-V2X: GN-PDUs forwarded for the valid frames differ from the control run"
+    if what and report:
+        ctx.violation(what, case)
+    if not report:
+        print("alive", run1[0], run1[2], "|", what or "same deliveries, location table and forwarded PDUs")
+    return what is not None
 
 
 def split_secured_pool(ctx, clock, world, sec_mut):
@@ -1017,6 +1216,312 @@ def check_secured_loops(ctx, clock, world, sec_mut, unsec_bad, elog):
                                    "bad_tags": sorted({tag for t, tag, _ in seq if t == "b"})})
 
 
+# ------------------------------------------------------------------------------------------------ (vii) histories
+
+
+def gn_request(stn, header_type, subtype, data, **kw):
+    from flexstack.geonet.service_access_point import GNDataRequest, PacketTransportType, CommonNH
+    stn.gn.gn_data_request(GNDataRequest(
+        upper_protocol_entity=CommonNH.BTP_B,
+        packet_transport_type=PacketTransportType(header_type=header_type, header_subtype=subtype),
+        data=data, length=len(data), **kw))
+
+
+def forwardables(clock, idxs=(9, 11)):
+    """well-formed UNSECURED frames of stations that are neither mutant sources (1, 3) nor senders of the valid / secured
+    streams (5, 7): CAM and VAM over SHB (delivered), DENM over GBC with RHL 10 and the receiver inside the area
+    (delivered AND re-broadcast by the contention-based forwarder), a multi-hop TSB (delivered and forwarded)"""
+    out = []
+    with rs.quiet():
+        for idx in idxs:
+            a = st_mod.Station(idx, clock, with_ldm=False)
+            cam = st_mod.emit_cam(a, clock)
+            out += [("denm", f) for f in st_mod.emit_denm(a, clock)]
+            out += [("cam", f) for f in cam]
+            out += [("vam", f) for f in st_mod.emit_vam(a, clock)]
+            # multi-hop TSB by header layout (the stack has no TSB source operation): Basic Header RHL 5, Common Header
+            # HT 5 / HST 1 / MHL 5, extended header SN + reserved + the SHB's source position vector, same payload
+            f = cam[0]
+            out.append(("tsb", f[:3] + b"\x05" + f[4:5] + b"\x51" + f[6:10] + b"\x05" + f[11:12]
+                        + bytes([1, idx & 0xFF, 0, 0]) + f[12:36] + f[40:]))
+    return out
+
+
+def hop_limit_mutants(valid, tag="field:basic-hop-limit"):
+    """the Basic Header is outside the signed part of a secured packet: RHL rewritten on the way.  Such a frame VERIFIES
+    and is discarded afterwards (hop limit above the maximum of the signed Common Header), or is a stale copy (RHL 0)"""
+    out = []
+    for kind, f in valid:
+        for v in (0, 2, 5, 255):
+            if len(f) > 4 and f[3] != v:
+                out.append((tag, f[:3] + bytes([v]) + f[4:]))
+    return out
+
+
+class History:
+    """[setup..., X..., G] against [setup..., G] on fresh stations of one configuration.  The clause: a frame that is
+    DISCARDED (raised / dropped, nothing delivered, nothing sent, location table as before) leaves no trace: the
+    well-formed frame G behind it has the same outcome, the same deliveries, puts the same GN-PDUs on the air and leaves
+    the same location table as without X.  (The certificate library may have grown from an AUTHENTIC discarded frame;
+    it is compared only when X left it alone.)"""
+
+    def __init__(self, clock, world):
+        self.clock, self.world, self.ref = clock, world, {}
+
+    def _run(self, sec, ver, frames):
+        pr = Probe(self.clock, sec, ver, self.world if ver else None)
+        r = None
+        for f in frames:
+            r = pr.feed(f)
+        return pr, r
+
+    def alone(self, sec, ver, setup, good):
+        key = (sec, ver, tuple(setup), good)
+        if key not in self.ref:
+            pr, r = self._run(sec, ver, list(setup) + [good])
+            self.ref[key] = ((r[0], type(r[1]).__name__, r[4], list(pr.last_sent)), pr.state())
+        return self.ref[key]
+
+    def case(self, sec, ver, setup, prefix, good):
+        """-> (prefix discarded without effect, same, text)"""
+        ref, ref_state = self.alone(sec, ver, setup, good)
+        pr, _ = self._run(sec, ver, setup)
+        disc, sec_same = True, True
+        for x in prefix:
+            before = pr.state()
+            r = pr.feed(x)
+            after = pr.state()
+            if not r[2] or after[0] != before[0]:
+                disc = False
+            if after[1] != before[1]:
+                sec_same = False
+        r = pr.feed(good)
+        got = (r[0], type(r[1]).__name__, r[4], list(pr.last_sent))
+        st = pr.state()
+        same = got == ref and st[0] == ref_state[0] and (not sec_same or st[1] == ref_state[1])
+        text = ""
+        if not same:
+            diff = [n for n, a, b in zip(("outcome", "exception", "deliveries", "forwarded GN-PDUs"), got, ref) if a != b]
+            if st[0] != ref_state[0]:
+                diff.append("location table")
+            if sec_same and st[1] != ref_state[1]:
+                diff.append("trust store")
+            text = "differs in " + ", ".join(diff)
+            if got[3] != ref[3]:
+                text += f" (forwarded {[x[:24] + '..' for x in got[3]]} instead of {[x[:24] + '..' for x in ref[3]]})"
+        return disc, same, text
+
+
+def check_histories(ctx, clock, world, sec_valid, sec_mut, unsec_bad, elog):
+    """(vii) a discarded frame followed by a well-formed frame that is delivered and / or FORWARDED, for every
+    configuration: unsecured station, station WITH a verify service and security disabled (mixed deployment: secured
+    and unsecured traffic accepted), security enabled."""
+    h = History(clock, world)
+    fw = forwardables(clock)
+    goods_unsec = [fw[0]] + fw[1:4] + (fw[4:] if ctx.thorough else [])          # DENM (forwarded) first
+    sec_cam = next(f for k, f in sec_valid if k == "cam")
+    sec_denm = next((f for k, f in sec_valid if k == "denm"), None)
+    goods_sec = [((), ("sec-cam", sec_cam))] + ([((sec_cam,), ("sec-denm", sec_denm))] if sec_denm else [])
+    hop = [m for m in sec_mut if m[0] == "field:basic-hop-limit"]
+    others = [m for m in sec_mut if m[0] != "field:basic-hop-limit"]
+    n_other = ctx.scale(10, 120)
+    xs_sec = hop + ctx.rng.sample(others, min(len(others), n_other))
+    xs_unsec = [("unsecured", f) for f in ctx.rng.sample(unsec_bad, min(len(unsec_bad), ctx.scale(8, 100)))]
+    n = 0
+    for sec, ver in ((0, 1), (0, 0), (1, 1)):
+        xs = (xs_sec + xs_unsec) if ver else xs_unsec + xs_sec[:3]
+        for tag, x in xs:
+            goods = []
+            if not sec:
+                goods.append(((), goods_unsec[0]))
+                goods.append(((), ctx.rng.choice(goods_unsec[1:])))
+                if ctx.thorough:
+                    goods += [((), g) for g in goods_unsec[1:]]
+            if ver:
+                goods.append(ctx.rng.choice(goods_sec))
+            for setup, (gk, g) in goods:
+                if g == x or x in setup:
+                    continue
+                disc, same, text = h.case(sec, ver, list(setup), [x], g)
+                n += 1
+                ctx.evals(2)
+                ctx.cover(f"history_{sec}{ver}_{'discarded' if disc else 'not-discarded'}")
+                ctx.nontrivial(("history", sec, ver, tag, gk, disc, same))
+                if disc and not same:
+                    case = {"kind": "history", "sec": sec, "ver": ver, "setup": [f.hex() for f in setup],
+                            "prefix": [x.hex()], "good": g.hex()}
+                    if ver:
+                        case["trust"] = world.trust()
+                    ctx.violation(f"well-formed frame ({gk}) received after a discarded frame ({tag}) is not processed as if "
+                                  f"the discarded frame had never been received [security {'enabled' if sec else 'disabled'}, "
+                                  f"{'with' if ver else 'no'} verify service]: {text}", case)
+    ctx.cover("histories", n)
+
+
+def check_mixed_loops(ctx, clock, world, sec_valid, sec_mut, unsec_pool, elog):
+    """(iv) for a station of a mixed deployment (verify service present, itsGnSecurity DISABLED): valid secured AND
+    unsecured traffic through the real RawLinkLayer.receive with discarded frames (secured mutants, unsecured garbage) at
+    random positions: per valid frame the same deliveries and the same GN-PDUs on the air as in the control run"""
+    fw = [f for _, f in forwardables(clock)]
+    # bad frames: discarded and without effect ALONE on a fresh station of this configuration
+    bads = []
+    pr = Probe(clock, 0, 1, world)
+    cand = [m for m in sec_mut if m[0] == "field:basic-hop-limit"] + ctx.rng.sample(sec_mut, min(len(sec_mut), ctx.scale(40, 400))) \
+        + [("unsecured", f) for f in ctx.rng.sample(unsec_pool, min(len(unsec_pool), ctx.scale(30, 300)))]
+    for tag, f in cand:
+        before = pr.state()
+        r = pr.feed(f)
+        ctx.evals()
+        if r[2] and pr.state() == before:
+            bads.append((tag, f))
+        elif pr.state()[0] != before[0]:
+            pr = Probe(clock, 0, 1, world)
+    ctx.cover("mixed_pool_discarded_no_effect", len(bads))
+    for s in range(ctx.scale(3, 40)):
+        fac = (("ca", "den", "vru"), ("den",), ("ca", "vru"))[s % 3]
+        valid = [f for _, f in world.valid_stream()]
+        for f in fw:
+            valid.insert(ctx.rng.randrange(len(valid) + 1), f)
+        seq = [("v", v) for v in valid]
+        for tag, b in [ctx.rng.choice(bads) for _ in range(ctx.rng.randrange(2, ctx.scale(10, 30)))] if bads else []:
+            seq.insert(ctx.rng.randrange(len(seq) + 1), ("b", b))
+        case = {"kind": "mixedloop", "facilities": list(fac), "stream": [[t, x.hex()] for t, x in seq],
+                "trust": world.trust()}
+        ctx.evals(len(seq))
+        ctx.cover("mixed_loop_streams")
+        viol, what, hung = mixed_loop_case(clock, world, fac, seq)
+        ctx.nontrivial(("mixedloop", s, len(seq), fac))
+        if viol:
+            ctx.violation("mixed deployment (verify service, security disabled): " + what, case)
+        if hung:
+            return
+
+
+def mixed_loop_case(clock, world, fac, seq):
+    def rx():
+        return FullSecStation(world, 0x63, fac, False)
+    run0 = run_raw_loop(clock, [eth(x) for t, x in seq if t == "v"], fac, False, stn=rx())
+    run1 = run_raw_loop(clock, [eth(x) for _, x in seq], fac, False, stn=rx())
+    if not run0[0]:
+        return True, f"receive loop died on valid traffic: {run0[2]}", run0.hung
+    if sum(len(d) for d in run0[1]) == 0:
+        raise Infra("mixed control run delivered nothing")
+    if not run1[0]:
+        return True, f"receive loop terminated by a received frame: {run1[2]}", run1.hung
+    got = [d for (t, _), d in zip(seq, run1[1]) if t == "v"]
+    got_sent = [d for (t, _), d in zip(seq, run1.sent) if t == "v"]
+    if got != run0[1]:
+        return True, "deliveries of the valid frames differ from the run without the discarded frames", False
+    if got_sent != run0.sent:
+        i = next(i for i, (a, b) in enumerate(zip(got_sent, run0.sent)) if a != b)
+        return True, (f"GN-PDUs put on the air for valid frame {i} differ from the run without the discarded frames: "
+                      f"{[x[:24] + '..' for x in got_sent[i]]} instead of {[x[:24] + '..' for x in run0.sent[i]]}"), False
+    if loct_snapshot(run1[3].gn) != loct_snapshot(run0[3].gn):
+        return True, "location table differs from the run without the discarded frames", False
+    return False, "same deliveries, forwarded PDUs and location table", False
+
+
+# --- Location Service histories: the application asked for an unknown station, requests are buffered, replies arrive
+
+
+LS_PEER = 0x21
+
+
+def ls_station(clock, n_requests, facilities=("ca", "den", "vru"), dest=LS_PEER):
+    """station under test with a Location Service pending for `dest` and n_requests GeoUnicast requests queued behind
+    it.  -> (station, LS Request frames it broadcast)"""
+    from flexstack.geonet.service_access_point import HeaderType, HeaderSubType
+    with rs.quiet():
+        a = st_mod.Station(0x63, clock, facilities=facilities, with_ldm=False)
+        for i in range(n_requests):
+            gn_request(a, HeaderType.GEOUNICAST, HeaderSubType.UNSPECIFIED, b"\x07\xd1\x00\x00guc-%d" % i,
+                       destination=rs.gn_addr(dest))
+    return a, a.ll.take()
+
+
+def ls_replies(clock, requests, age_ms, dest=LS_PEER):
+    """the sought station (a real Router whose position fix is `age_ms` old) answers the LS Requests"""
+    from flexstack.geonet.position_vector import LongPositionVector, TST
+    with rs.quiet():
+        b, ll, _ = rs.make_router(dest)
+        b.ego_position_vector = LongPositionVector(
+            gn_addr=b.mib.itsGnLocalGnAddr, tst=TST.set_in_normal_timestamp_milliseconds(clock.ms - age_ms),
+            latitude=415000500, longitude=21000500, pai=True)
+        for f in requests:
+            b.gn_data_indicate(f)
+    return ll.take()
+
+
+def ls_history_case(clock, n_requests, facilities, seq):
+    """seq = [(tag, GN packet)], tags: "v" valid traffic of other stations, "ls" Location Service replies, "b" bad.
+    -> (violated, text, hung): the loop must stay alive and every valid frame must be delivered as in the control run
+    (same history, stream without the "ls" / "b" frames)"""
+    a0, _ = ls_station(clock, n_requests, facilities)
+    run0 = run_raw_loop(clock, [eth(x) for t, x in seq if t == "v"], facilities, False, stn=a0)
+    a1, _ = ls_station(clock, n_requests, facilities)
+    run1 = run_raw_loop(clock, [eth(x) for _, x in seq], facilities, False, stn=a1)
+    if not run0[0]:
+        return True, f"receive loop died on valid traffic: {run0[2]}", run0.hung
+    if not run1[0]:
+        return True, f"receive loop stopped by a received frame: {run1[2]}", run1.hung
+    got = [d for (t, _), d in zip(seq, run1[1]) if t == "v"]
+    if got != run0[1]:
+        return True, "deliveries of the valid frames differ from the run without the Location Service replies", False
+    return False, f"alive, same deliveries; GN-PDUs sent per frame {[len(x) for x in run1.sent]}", False
+
+
+def check_ls_histories(ctx, clock, bad_pool):
+    """histories with a pending Location Service: replies whose source position vector is fresh, at the boundaries of
+    itsGnLifetimeLocTE, stale (the replier lost its fix / the reply is a replay) or in the future; replies received
+    twice, truncated, for a station nobody asked for; 1..3 requests buffered"""
+    from flexstack.geonet.mib import MIB
+    life = MIB().itsGnLifetimeLocTE * 1000
+    ages = [0, 1000, life - 1, life, life + 1, 3 * life, 600_000, -1000]
+    valid = [f for _, f in base_frames(clock, n=1, idxs=(5, 7))]
+    k = 0
+    for n_req in (1, 3) if not ctx.thorough else (1, 2, 3, 5):
+        _, reqs = ls_station(clock, n_req)
+        if not reqs:
+            raise Infra("no LS Request broadcast for a GeoUnicast to an unknown station")
+        for age in ages:
+            replies = ls_replies(clock, reqs[:1], age)
+            if not replies:
+                ctx.cover("ls_no_reply")
+                continue
+            rep = replies[0]
+            for variant in ("once", "twice", "truncated-then-genuine", "unasked") if (ctx.thorough or k % 3 == 0) else ("once",):
+                n_here = n_req
+                if variant == "once":
+                    ls = [("ls", rep)]
+                elif variant == "twice":
+                    ls = [("ls", rep), ("ls", rep)]
+                elif variant == "truncated-then-genuine":
+                    ls = [("b", rep[:ctx.rng.randrange(12, len(rep))]), ("ls", rep)]
+                else:
+                    ls, n_here = [("ls", rep)], 0          # nobody asked: no LS pending, nothing buffered
+                seq = [("v", v) for v in valid]
+                pos = ctx.rng.randrange(len(seq))          # at least one valid frame behind the reply
+                for j, item in enumerate(ls):
+                    seq.insert(pos + j, item)
+                for _ in range(ctx.rng.randrange(0, 3)):
+                    seq.insert(ctx.rng.randrange(len(seq) + 1), ("b", ctx.rng.choice(bad_pool)))
+                fac = ("ca", "den", "vru")
+                viol, text, hung = ls_history_case(clock, n_here, fac, seq)
+                k += 1
+                ctx.evals(len(seq))
+                ctx.cover("ls_histories")
+                ctx.cover("ls_reply_pv_" + ("fresh" if 0 <= age < life else "boundary" if age == life else
+                                            "future" if age < 0 else "stale"))
+                ctx.nontrivial(("lshist", n_here, age, variant))
+                if viol:
+                    ctx.violation(f"Location Service pending ({n_here} GeoUnicast request(s) buffered), LS Reply with a source "
+                                  f"position vector {age} ms old [{variant}]: {text}",
+                                  {"kind": "lshist", "n_requests": n_here, "facilities": list(fac), "age_ms": age,
+                                   "stream": [[t, x.hex()] for t, x in seq]})
+                if hung:
+                    return
+
+
 # ------------------------------------------------------------------------------------------------ (v) fault injection
 
 
@@ -1081,7 +1586,7 @@ def stdout_fault_case(clock, which, fault, bad_hex):
 
 
 def check_stdout_faults(ctx, clock):
-    bads = ["110005", "11000501" + "20f0000000000100", "1100050a" + "2050000000000100" + "00" * 10]
+    bads = ["110005", "11000501" + "20f0000000000100", "1100050a" + "2050000000000100" + "00" * 10, ""]
     for which in ("raw", "cv2x", "indicate"):
         for name, _, _ in FAULTS:
             for bad in bads:
@@ -1095,7 +1600,7 @@ def check_stdout_faults(ctx, clock):
 
 
 GUARD_BADS = ["110005", "1300050120500080002d0100", "1100050320500080002d0100", "11000501" + "20f0000000000100",
-              "11000501" + "2040000000000100" + "00" * 44, "1200050109"]
+              "11000501" + "2040000000000100" + "00" * 44, "1200050109", "", "11"]
 
 
 def loop_guard_case(clock, which, bad_hex):
@@ -1199,11 +1704,11 @@ def run(ctx):
                          "HT/HST) classes, distinct secured-mutant effects, pairs, streams and fault cases")
     check_generated_facts(ctx)
     elog = ExcLog(ctx)
-    with rs.VClock(T0) as clock:
+    with rs.VClock(T0) as clock, vtimers():
         corp = [bytes.fromhex(c["frame"]) for _, c in corpus("C04") if "frame" in c]
         import contextlib
         for name, c in corpus("C04"):
-            if c.get("kind") in ("pair", "stdout-fault", "mac"):
+            if c.get("kind") in ("pair", "stdout-fault", "mac", "history", "lshist", "cv2x"):
                 with contextlib.redirect_stdout(io.StringIO()):
                     bad = replay(ctx, {"case": c})
                 ctx.evals()
@@ -1233,18 +1738,35 @@ def run(ctx):
         sec_bad, sec_auth = timed(ctx, "secured_pool", split_secured_pool, ctx, clock, world, sec_mut)
         timed(ctx, "secured_pairs", check_secured_pairs, ctx, clock, world, sec_valid, sec_auth, elog)
         timed(ctx, "secured_loops", check_secured_loops, ctx, clock, world, sec_bad, frames, elog)
+        timed(ctx, "histories", check_histories, ctx, clock, world, sec_valid, sec_mut, frames, elog)
+        timed(ctx, "mixed_loops", check_mixed_loops, ctx, clock, world, sec_valid, sec_mut, frames, elog)
+        timed(ctx, "ls_histories", check_ls_histories, ctx, clock, frames)
     ctx.extra["exception_classes_observed"] = sorted(elog.seen.values())
+    ctx.extra["receive_threads_hung"] = list(HANGS)
 
 
 def search(ctx):
     """an obligation / the correspondence broke: look for a concrete failing input on the real code (oracle only)"""
-    with rs.VClock(T0) as clock:
+    with rs.VClock(T0) as clock, vtimers():
         ok = ctx.model_ok
         ctx.model_ok = False
         try:
             elog = ExcLog(ctx)
             check_stdout_faults(ctx, clock)
             check_loop_guard(ctx, clock)
+            if ctx.violations:
+                return
+            bad0 = all_bad_frames(ctx, clock)
+            check_ls_histories(ctx, clock, bad0)
+            if ctx.violations:
+                return
+            world0 = SecWorld(clock)
+            sv0 = world0.valid_stream()
+            sm0 = secured_mutants(ctx, world0, sv0)
+            check_histories(ctx, clock, world0, sv0, sm0, bad0, elog)
+            if ctx.violations:
+                return
+            check_mixed_loops(ctx, clock, world0, sv0, sm0, bad0, elog)
             if ctx.violations:
                 return
             # multi-step histories first: every mutant that keeps (source, SN) followed by its original, all kinds
@@ -1270,7 +1792,25 @@ def search(ctx):
 def replay(ctx, obj):
     case = obj.get("case", obj)
     kind = case["kind"]
-    with rs.VClock(T0) as clock:
+    with rs.VClock(T0) as clock, vtimers():
+        if kind == "history":
+            world = replay_world(case, clock) if case.get("ver") else None
+            h = History(clock, world)
+            disc, same, text = h.case(case.get("sec", 0), case.get("ver", 0), [bytes.fromhex(x) for x in case.get("setup", [])],
+                                      [bytes.fromhex(x) for x in case["prefix"]], bytes.fromhex(case["good"]))
+            print("prefix discarded without effect:", disc, "| good frame processed as alone:", same, text)
+            return disc and not same
+        if kind == "mixedloop":
+            world = replay_world(case, clock)
+            seq = [(t, bytes.fromhex(x)) for t, x in case["stream"]]
+            viol, what, _ = mixed_loop_case(clock, world, tuple(case["facilities"]), seq)
+            print(what)
+            return viol
+        if kind == "lshist":
+            seq = [(t, bytes.fromhex(x)) for t, x in case["stream"]]
+            viol, what, _ = ls_history_case(clock, case["n_requests"], tuple(case["facilities"]), seq)
+            print(what)
+            return viol
         if kind in ("classify", "indicate", "effect"):
             f = bytes.fromhex(case["frame"])
             world = replay_world(case, clock) if (case.get("ver") or (kind == "indicate" and case.get("sec"))) else None
@@ -1295,11 +1835,12 @@ def replay(ctx, obj):
             b, v = bytes.fromhex(case["bad"]), bytes.fromhex(case["good"])
             alone = Probe(clock)
             r_alone = alone.feed(v)
+            sent_alone = list(alone.last_sent)
             both = Probe(clock)
             r_b = both.feed(b)
             r_v = both.feed(v)
             same = (r_v[0], type(r_v[1]).__name__, r_v[4]) == (r_alone[0], type(r_alone[1]).__name__, r_alone[4]) \
-                and both.state() == alone.state()
+                and both.state() == alone.state() and both.last_sent == sent_alone
             print("bad:", r_b[0], "discarded" if r_b[2] else "indicated", "| good after bad:", r_v[0], len(r_v[4]),
                   "deliveries | good alone:", r_alone[0], len(r_alone[4]), "deliveries | same:", same)
             if r_b[2]:
@@ -1339,11 +1880,9 @@ def replay(ctx, obj):
             return (not alive1) or got != per0
         if kind == "cv2x":
             seq = [(t, bytes.fromhex(x)) for t, x in case["stream"]]
-            alive0, d0, _, _ = run_cv2x_loop(clock, [x for t, x in seq if t == "v"])
-            alive1, d1, e1, _ = run_cv2x_loop(clock, [x for _, x in seq])
-            got = [d for (t, _), d in zip(seq, d1) if t == "v"]
-            print("alive", alive1, e1, "same deliveries", got == d0)
-            return (not alive1) or got != d0
+            if not case.get("radio"):            # older replays hold the GN packets
+                seq = [(t, b"\x03" + x) for t, x in seq]
+            return cv2x_stream_case(ctx, clock, seq, report=False)
         if kind == "loop-guard":
             viol, what = loop_guard_case(clock, case["which"], case["frame"])
             print(what)
